@@ -332,4 +332,26 @@ def dgAttempts (afterUnprepared : Bool) : List Char → List Attempt
 
 def dgSupported (cs : List Char) : Bool := cs.all fun c => c == 'u' || c == 'W' || c == 'o' || c == 'd'
 
+/-! ### Result-metadata changes between pages (SCYLLA_USE_METADATA_ID)
+
+A page may carry METADATA_CHANGED, a new result-metadata id and new column specs
+(`RawMetadataAndRawRows::deserialize`, scylla-cql result.rs 808-851: flags, column count, THEN the paging
+state, then the new id and the columns; connection.rs 938-972 stores the new metadata on the prepared
+statement). For the pager it is an annotation of the page: it changes the columns the rows of this and
+the later pages are decoded with, and nothing else - the page loop, the channel and the paging-state
+chain never look at it. The script with annotations is `List PageM`; the transition system runs on the
+erased script. -/
+abbrev PageM := Page × Bool
+
+def erase (ps : List PageM) : List Page := ps.map Prod.fst
+
+def initM (ps : List PageM) (faults : List Attempt) : St := init (erase ps) faults
+
+/-- The metadata version each row of a complete iteration is decoded with, row by row (the version in
+force for a page = number of changes announced with the pages up to and including it). -/
+def rowVersions : Nat → List PageM → List Nat
+  | _, [] => []
+  | v, ((r, none), c) :: _ => List.replicate r.length (v + c.toNat)
+  | v, ((r, some _), c) :: t => List.replicate r.length (v + c.toNat) ++ rowVersions (v + c.toNat) t
+
 end ScyllaVerif.Pager
